@@ -692,7 +692,7 @@ class Extraction:
 
         add("#![allow(unused, non_snake_case, non_camel_case_types)]\nuse vstd::prelude::*;\nuse core::cmp::Ordering;\nverus! {\n")
         for (n, k, t, f) in (lib_items or []):
-            if canary and k == "proof":
+            if canary and k in ("proof", "exec"):
                 t = re.sub(r"(?m)^\{[ \t]*\n((?:[ \t]*(?:hide|reveal)\([^\n]*\n)*)", lambda m: "{\n" + m.group(1) + "    assert(false); // canary\n", t, count=1)
             add(t + "\n", n, k)
         impl_open = None
